@@ -6,6 +6,7 @@ import PyxisVerif.Model.Printer
 namespace PyxisVerif
 namespace C18
 open Lex (K Delim Tok Pos)
+open Print (digitsLE digitChar)
 
 /-! ## positions lie inside the text -/
 
@@ -299,6 +300,327 @@ theorem intDigits_spec (b : Base) (cs : List Char) (h : Spelling b cs) (tail : L
       simp only [List.cons.injEq] at heq
       exact absurd heq.2 (h2 'b' (by decide) (Or.inr (by decide)) (by decide) _)
     · exact hl
+
+theorem mant_digits (hd : Bool) (r : List Char) (h : ∀ c ∈ r, c.isDigit = true ∨ c = '_')
+    (tail : List Char) (ht : IntTail tail) :
+    (∃ t, Lex.mant hd (r ++ tail) = .noexp hd t) := by
+  induction r with
+  | nil =>
+    match tail, ht with
+    | [], _ => exact ⟨[], rfl⟩
+    | c :: t, ht =>
+      simp only [IntTail] at ht
+      have hn : ¬ ((48 ≤ c.toNat ∧ c.toNat ≤ 57) ∨ (65 ≤ c.toNat ∧ c.toNat ≤ 90) ∨
+          (97 ≤ c.toNat ∧ c.toNat ≤ 122) ∨ c.toNat = 95) :=
+        fun hh => by have := (isIdCont_iff c).2 hh; rw [ht.1] at this; cases this
+      have h1 : c.isDigit = false := by
+        cases hc : c.isDigit with
+        | false => rfl
+        | true => exact absurd ((isDigit_iff c).1 hc) (fun hh => hn (Or.inl hh))
+      have h2 : c ≠ '_' := by intro e; subst e; exact hn (by decide)
+      have h3 : c ≠ 'e' := by intro e; subst e; exact hn (by decide)
+      have h4 : c ≠ 'E' := by intro e; subst e; exact hn (by decide)
+      exact ⟨c :: t, by simp [Lex.mant, h1, h2, h3, h4, ht.2]⟩
+  | cons x xs ih =>
+    obtain ⟨t, ht'⟩ := ih (fun c hc => h c (by simp [hc]))
+    refine ⟨t, ?_⟩
+    rcases h x (by simp) with hx | hx
+    · simp [Lex.mant, hx, ht']
+    · subst hx; simp [Lex.mant, ht']
+
+theorem floatDigits_none (b : Base) (cs : List Char) (h : Spelling b cs) (tail : List Char)
+    (ht : IntTail tail) : Lex.floatDigits (b.pre ++ cs ++ tail) = none := by
+  cases b with
+  | hex => simp [Base.pre, Lex.floatDigits, Lex.mant]
+  | oct => simp [Base.pre, Lex.floatDigits, Lex.mant]
+  | bin => simp [Base.pre, Lex.floatDigits, Lex.mant]
+  | dec =>
+    obtain ⟨c, r, rfl, hc⟩ := h.first rfl
+    obtain ⟨t, ht'⟩ := mant_digits false r
+      (fun x hx => digitCh10 (by simpa [Base.radix] using h.chars x (by simp [hx]))) tail ht
+    simp [Base.pre, Lex.floatDigits, ht']
+
+theorem dropSuffix_intTail {tail : List Char} (ht : IntTail tail) : Lex.dropSuffix tail = tail := by
+  match tail, ht with
+  | [], _ => rfl
+  | c :: t, ht =>
+    simp only [IntTail] at ht
+    have : Lex.isIdStart c = false := by
+      cases hc : Lex.isIdStart c with
+      | false => rfl
+      | true =>
+        have h1 := (isIdStart_iff c).1 hc
+        have h2 := (isIdCont_iff c).2 (by omega)
+        rw [ht.1] at h2; cases h2
+    simp [Lex.dropSuffix, this]
+
+theorem lexNumber_spec (b : Base) (cs : List Char) (h : Spelling b cs) (tail : List Char)
+    (ht : IntTail tail) :
+    Lex.lexNumber (b.pre ++ cs ++ tail) = some (.int (digitsVal b.radix 0 cs), tail) := by
+  simp only [Lex.lexNumber]
+  rw [floatDigits_none b cs h tail ht, intDigits_spec b cs h tail ht]
+  simp [dropSuffix_intTail ht]
+
+theorem lexLeaf_digit (c : Char) (r : List Char) (h : c.isDigit = true) :
+    Lex.lexLeaf (c :: r) = Lex.lexNumber (c :: r) := by
+  have hn := (isDigit_iff c).1 h
+  have h1 : c ≠ '"' := by intro e; subst e; simp at hn
+  have h2 : c ≠ '\'' := by intro e; subst e; simp at hn
+  simp [Lex.lexLeaf, h1, h2, h]
+
+theorem spelling_head_digit (b : Base) (cs : List Char) (h : Spelling b cs) (tail : List Char) :
+    ∃ c r, b.pre ++ cs ++ tail = c :: r ∧ c.isDigit = true := by
+  cases b with
+  | hex => exact ⟨'0', _, rfl, by decide⟩
+  | oct => exact ⟨'0', _, rfl, by decide⟩
+  | bin => exact ⟨'0', _, rfl, by decide⟩
+  | dec =>
+    obtain ⟨c, r, rfl, hc⟩ := h.first rfl
+    refine ⟨c, r ++ tail, rfl, ?_⟩
+    rcases digitCh10 (by simpa [Base.radix] using h.chars c (by simp)) with hd | hd
+    · exact hd
+    · exact absurd hd hc
+
+/-- a number spelled in any base with any `_` separators is one `int` token whose value is
+    the positional value of its digits -/
+theorem lexLeaf_int (b : Base) (cs : List Char) (h : Spelling b cs) (tail : List Char)
+    (ht : IntTail tail) :
+    Lex.lexLeaf (b.pre ++ cs ++ tail) = some (.int (digitsVal b.radix 0 cs), tail) := by
+  obtain ⟨c, r, e, hc⟩ := spelling_head_digit b cs h tail
+  rw [e, lexLeaf_digit c r hc, ← e]
+  exact lexNumber_spec b cs h tail ht
+
+
+
+/-! ### printing a number and reading it back (DESIGN-scratch-proofs A.8) -/
+
+def ofLE (b : Nat) : List Nat → Nat
+  | [] => 0
+  | d :: ds => d + b * ofLE b ds
+
+theorem ofLE_digitsLE (b n : Nat) (hb : 2 ≤ b) : ofLE b (digitsLE b n) = n := by
+  induction n using Nat.strongRecOn with
+  | _ n ih =>
+    rw [digitsLE]
+    have h1 : ¬ b < 2 := by omega
+    simp only [h1, dite_false]
+    by_cases h2 : n < b
+    · simp [h2, ofLE]
+    · simp only [h2, if_false, ofLE]
+      have : n / b < n := Nat.div_lt_self (by omega) (by omega)
+      rw [ih _ this]
+      exact Nat.mod_add_div n b
+
+theorem digitsLE_lt (b n : Nat) (hb : 2 ≤ b) : ∀ d ∈ digitsLE b n, d < b := by
+  induction n using Nat.strongRecOn with
+  | _ n ih =>
+    rw [digitsLE]
+    have h1 : ¬ b < 2 := by omega
+    simp only [h1, dite_false]
+    by_cases h2 : n < b
+    · simp [h2]
+    · simp only [h2, if_false, List.mem_cons]
+      intro d hd
+      cases hd with
+      | inl e => subst e; exact Nat.mod_lt _ (by omega)
+      | inr e => exact ih _ (Nat.div_lt_self (by omega) (by omega)) d e
+
+theorem digitsLE_ne_nil (b n : Nat) : digitsLE b n ≠ [] := by
+  rw [digitsLE]
+  split
+  · simp
+  · split <;> simp
+
+def readBE (b : Nat) (ds : List Nat) : Nat := ds.foldl (fun acc d => acc * b + d) 0
+
+theorem foldl_readBE (b : Nat) (ds : List Nat) (acc : Nat) :
+    ds.foldl (fun acc d => acc * b + d) acc = acc * b ^ ds.length + readBE b ds := by
+  induction ds generalizing acc with
+  | nil => simp [readBE]
+  | cons d ds ih =>
+    simp only [List.foldl, List.length_cons, readBE]
+    rw [ih, ih (0 * b + d)]
+    simp [Nat.pow_succ, Nat.add_mul, Nat.mul_assoc, Nat.mul_comm b, Nat.add_assoc]
+
+theorem readBE_reverse (b : Nat) (ds : List Nat) : readBE b ds.reverse = ofLE b ds := by
+  induction ds with
+  | nil => rfl
+  | cons d ds ih =>
+    simp only [List.reverse_cons, readBE, List.foldl_append, List.foldl, ofLE]
+    have := ih; unfold readBE at this; rw [this]
+    rw [Nat.mul_comm, Nat.add_comm]
+
+theorem read_print (b n : Nat) (hb : 2 ≤ b) : readBE b (digitsLE b n).reverse = n := by
+  rw [readBE_reverse, ofLE_digitsLE b n hb]
+
+/-- the digits of `n` in base `b`, most significant first, upper-case letters above 9 -/
+def numChars (b n : Nat) : List Char := ((digitsLE b n).reverse).map digitChar
+
+theorem hexVal_digitChar : ∀ d : Fin 16, Lex.hexVal (digitChar d.val) = some d.val := by decide
+
+theorem digitChar_ne_us : ∀ d : Fin 16, digitChar d.val ≠ '_' := by decide
+
+theorem digitsVal_map (b : Nat) (ds : List Nat) (h : ∀ d ∈ ds, d < 16) (v : Nat) :
+    digitsVal b v (ds.map digitChar) = ds.foldl (fun acc d => acc * b + d) v := by
+  induction ds generalizing v with
+  | nil => rfl
+  | cons d ds ih =>
+    have hd : d < 16 := h d (by simp)
+    have h1 := hexVal_digitChar ⟨d, hd⟩
+    have h2 := digitChar_ne_us ⟨d, hd⟩
+    simp only at h1 h2
+    simp only [List.map_cons, digitsVal, h2, if_false, h1, Option.getD_some, List.foldl_cons]
+    exact ih (fun x hx => h x (by simp [hx])) _
+
+/-- the canonical digit string of `n` reads back as `n` -/
+theorem digitsVal_numChars (b n : Nat) (hb : 2 ≤ b) (hb' : b ≤ 16) :
+    digitsVal b 0 (numChars b n) = n := by
+  unfold numChars
+  rw [digitsVal_map b _ (fun d hd => by
+    have := digitsLE_lt b n hb d (by simpa using hd); omega)]
+  exact read_print b n hb
+
+/-- `_` separators do not change the value -/
+theorem digitsVal_filter (b : Nat) (v : Nat) (cs : List Char) :
+    digitsVal b v (cs.filter (fun c => !decide (c = '_'))) = digitsVal b v cs := by
+  induction cs generalizing v with
+  | nil => rfl
+  | cons c cs ih =>
+    by_cases hc : c = '_'
+    · subst hc; simp [digitsVal, ih]
+    · simp [hc, digitsVal, ih]
+
+/-- leading zeros do not change the value -/
+theorem digitsVal_zero (b : Nat) (cs : List Char) : digitsVal b 0 ('0' :: cs) = digitsVal b 0 cs := by
+  simp [digitsVal, Lex.hexVal]
+
+theorem numChars_spelling (b : Base) (n : Nat) : Spelling b (numChars b.radix n) := by
+  have hb : 2 ≤ b.radix ∧ b.radix ≤ 16 := by cases b <;> simp [Base.radix]
+  have hall : ∀ c ∈ numChars b.radix n, ∃ d, Lex.hexVal c = some d ∧ d < b.radix ∧ c ≠ '_' := by
+    intro c hc
+    simp only [numChars, List.mem_map, List.mem_reverse] at hc
+    obtain ⟨d, hd, rfl⟩ := hc
+    have hlt := digitsLE_lt b.radix n hb.1 d hd
+    exact ⟨d, hexVal_digitChar ⟨d, by omega⟩, hlt, digitChar_ne_us ⟨d, by omega⟩⟩
+  have hne : numChars b.radix n ≠ [] := by
+    simp [numChars, digitsLE_ne_nil]
+  obtain ⟨c, r, hcr⟩ : ∃ c r, numChars b.radix n = c :: r := by
+    cases h : numChars b.radix n with
+    | nil => exact absurd h hne
+    | cons c r => exact ⟨c, r, rfl⟩
+  refine ⟨fun c hc => ?_, ?_, fun _ => ?_⟩
+  · obtain ⟨d, h1, h2, _⟩ := hall c hc
+    exact Or.inr ⟨d, h1, h2⟩
+  · refine ⟨c, by simp [hcr], ?_⟩
+    obtain ⟨_, _, _, h3⟩ := hall c (by simp [hcr])
+    exact h3
+  · refine ⟨c, r, hcr, ?_⟩
+    obtain ⟨_, _, _, h3⟩ := hall c (by simp [hcr])
+    exact h3
+
+open Print (digitsLE digitChar)
+
+/-! ## one step of `lexCore` on the first character of a leaf token -/
+
+/-- a printable ASCII character that is neither `/` nor a delimiter -/
+def LeafStart (c : Char) : Prop :=
+  33 ≤ c.toNat ∧ c.toNat ≤ 126 ∧ c.toNat ≠ 47 ∧ c.toNat ≠ 40 ∧ c.toNat ≠ 41 ∧ c.toNat ≠ 91 ∧
+  c.toNat ≠ 93 ∧ c.toNat ≠ 123 ∧ c.toNat ≠ 125
+
+theorem isWs_false_of_range {c : Char} (h1 : 33 ≤ c.toNat) (h2 : c.toNat ≤ 126) :
+    Lex.isWs c = false := by
+  cases h : Lex.isWs c with
+  | false => rfl
+  | true =>
+    simp only [Lex.isWs, Lex.isRustWs, Bool.or_eq_true, Bool.and_eq_true, decide_eq_true_eq,
+      beq_iff_eq] at h
+    omega
+
+theorem scanSlash_ne {c : Char} (h : c ≠ '/') (r : List Char) : Lex.scanSlash (c :: r) = .none := by
+  unfold Lex.scanSlash
+  split <;> first | rfl | (rename_i heq; simp only [List.cons.injEq] at heq; exact absurd heq.1 h)
+
+theorem lexCore_leaf (c : Char) (r : List Char) (hc : LeafStart c) (f : Nat)
+    (st : List (Delim × Nat)) :
+    Lex.lexCore (f + 1) (c :: r) st =
+      match Lex.lexLeaf (c :: r) with
+      | some (k, rest) => (Lex.lexCore f rest st).map ((k, (c :: r).length) :: ·)
+      | none => .error (c :: r).length := by
+  obtain ⟨h1, h2, h3, h4, h5, h6, h7, h8, h9⟩ := hc
+  have hws := isWs_false_of_range h1 h2
+  have hsl : c ≠ '/' := fun e => h3 (by rw [e]; rfl)
+  have ho : Lex.delimOpen c = none := by
+    simp only [Lex.delimOpen, beq_iff_eq, char_eq_iff]
+    have e1 : ('(' : Char).toNat = 40 := rfl
+    have e2 : ('[' : Char).toNat = 91 := rfl
+    have e3 : ('{' : Char).toNat = 123 := rfl
+    simp [e1, e2, e3, h4, h6, h8]
+  have hcl : Lex.delimClose c = none := by
+    simp only [Lex.delimClose, beq_iff_eq, char_eq_iff]
+    have e1 : (')' : Char).toNat = 41 := rfl
+    have e2 : (']' : Char).toNat = 93 := rfl
+    have e3 : ('}' : Char).toNat = 125 := rfl
+    simp [e1, e2, e3, h5, h7, h9]
+  rw [Lex.lexCore]
+  simp only [hws, Bool.false_eq_true, if_false, scanSlash_ne hsl, ho, hcl]
+  cases Lex.lexLeaf (c :: r) with
+  | none => rfl
+  | some p => rfl
+
+theorem leafStart_digit {c : Char} (h : c.isDigit = true) : LeafStart c := by
+  have := (isDigit_iff c).1 h
+  simp only [LeafStart]; omega
+
+theorem leafStart_idStart {c : Char} (h : Lex.isIdStart c = true) : LeafStart c := by
+  have := (isIdStart_iff c).1 h
+  simp only [LeafStart]; omega
+
+theorem posOfRem_full (cs : List Char) : Lex.posOfRem cs cs.length = (1, 0) := by
+  simp [Lex.posOfRem, Lex.posAt, Lex.advance]
+
+theorem stripBom_digit {c : Char} (h : c.isDigit = true) (r : List Char) :
+    Lex.stripBom (c :: r) = c :: r := by
+  have := (isDigit_iff c).1 h
+  simp only [Lex.stripBom, beq_iff_eq]
+  rw [if_neg (by omega)]
+
+/-- a text that consists of one number is one `int` token at line 1, column 0 -/
+theorem lexL_int (b : Base) (cs : List Char) (h : Spelling b cs) :
+    Lex.lexL (b.pre ++ cs) = .ok [⟨.int (digitsVal b.radix 0 cs), (1, 0)⟩] := by
+  obtain ⟨c, r, e, hc⟩ := spelling_head_digit b cs h []
+  have hl := lexLeaf_int b cs h [] trivial
+  simp only [List.append_nil] at e hl
+  simp only [Lex.lexL]
+  rw [e, stripBom_digit hc, List.length_cons, lexCore_leaf c r (leafStart_digit hc), ← e, hl]
+  simp only [Lex.lexCore, Except.map, List.map_cons, List.map_nil]
+  rw [posOfRem_full]
+
+open Print (digitsLE digitChar)
+
+/-- executable form of `Spelling` -/
+def digitChB (b : Nat) (c : Char) : Bool :=
+  c == '_' || (match Lex.hexVal c with | some d => decide (d < b) | none => false)
+
+def spellingB (b : Base) (cs : List Char) : Bool :=
+  cs.all (digitChB b.radix) && cs.any (· != '_') &&
+  (b != .dec || (match cs with | c :: _ => c != '_' | [] => false))
+
+theorem digitChB_iff (b : Nat) (c : Char) : digitChB b c = true ↔ DigitCh b c := by
+  simp only [digitChB, DigitCh, Bool.or_eq_true, beq_iff_eq]
+  cases h : Lex.hexVal c with
+  | none => simp
+  | some d => simp
+
+theorem spelling_of_B (b : Base) (cs : List Char) (h : spellingB b cs = true) : Spelling b cs := by
+  simp only [spellingB, Bool.and_eq_true, List.all_eq_true, List.any_eq_true, bne_iff_ne,
+    Bool.or_eq_true, ne_eq] at h
+  obtain ⟨⟨h1, h2⟩, h3⟩ := h
+  refine ⟨fun c hc => (digitChB_iff _ c).1 (h1 c hc), h2, fun e => ?_⟩
+  rcases h3 with h3 | h3
+  · exact absurd e h3
+  · cases cs with
+    | nil => simp at h3
+    | cons c r => exact ⟨c, r, rfl, by simpa using h3⟩
 
 end C18
 end PyxisVerif
